@@ -154,6 +154,9 @@ func Draw(t *rapid.T, p *Profile) *Case {
 			op.Walk = DrawWalk(t, nk, 12)
 		case "iterrel":
 			op.Slot = rapid.IntRange(0, 3).Draw(t, "slot")
+		case "sizeof":
+			op.K = rapid.IntRange(0, nk-1).Draw(t, "k")
+			op.S, op.L = drawRange(t, nk)
 		case "churn":
 			op.K = rapid.IntRange(0, nk-1).Draw(t, "k")
 			op.Slot = rapid.SampledFrom([]int{20, 20, 60, 300}).Draw(t, "churnn")
@@ -179,4 +182,4 @@ func Draw(t *rapid.T, p *Profile) *Case {
 
 var opOrder = []string{"put", "del", "batch", "bigbatch", "get", "has", "compact", "reopen", "idle",
 	"snap", "snapget", "snaprel", "iter", "iterwalk", "iterrel", "scan",
-	"tropen", "trget", "trcommit", "trdiscard", "churn", "recover"}
+	"tropen", "trget", "trcommit", "trdiscard", "churn", "recover", "sizeof"}
